@@ -115,7 +115,7 @@ def rand_step(rng):
 
 def gen(chk):
     rng = chk.rng
-    n_rand = 20000 if chk.thorough else 2000
+    n_rand = 60000 if chk.thorough else 2000
     hist = []
     for _ in range(n_rand):
         ln = 1 + rng.below(40)
@@ -168,12 +168,13 @@ def fresh_history(cont):
     return tuple(steps)
 
 
-def evaluate(hists, profiles=(False, True), want_model=True):
+def evaluate(hists, profiles=(False, True), want_model=True, chunk_main=None, chunk_fresh=None):
     """Runs histories through implementation, model, spec; returns dict with traces and, per history,
-    the first failure of oracle A / B (or None)."""
+    the first failure of oracle A / B (or None).  chunk_*=1 runs every history / every fresh
+    environment in a process of its own (no other environment was ever created in that process)."""
     cases = [case_of(h) for h in hists]
     res = {"cases": cases}
-    impl = {rel: run_impl("c15", cases, release=rel) for rel in profiles}
+    impl = {rel: run_impl("c15", cases, release=rel, chunk=chunk_main) for rel in profiles}
     spec = run_model("C15", "c15-spec", cases)
     cont = run_model("C15", "c15-contents", cases)
     res.update(impl=impl, spec=spec)
@@ -188,9 +189,10 @@ def evaluate(hists, profiles=(False, True), want_model=True):
                 if e is not None and e not in fresh:
                     fresh[e] = None
     keys = list(fresh)
-    fout = {rel: run_impl("c15", [case_of(fresh_history(k), mode=1) for k in keys], release=rel) for rel in profiles}
+    fout = {rel: run_impl("c15", [case_of(fresh_history(k), mode=1) for k in keys], release=rel, chunk=chunk_fresh) for rel in profiles}
     fresh_obs = {rel: dict(zip(keys, fout[rel])) for rel in profiles}
     res["fresh_configs"] = len(keys)
+    res["contents"] = parsed
     fails = []
     for i, h in enumerate(hists):
         f = None
@@ -226,18 +228,48 @@ def evaluate(hists, profiles=(False, True), want_model=True):
 
 
 def shrink(h):
-    """Drops steps while the history still fails an oracle."""
+    """Drops steps while the history still fails an oracle (every candidate in a process of its own)."""
     cur = list(h)
     while True:
         cands = [cur[:i] + cur[i + 1:] for i in range(len(cur))]
         cands = [c for c in cands if c]
         if not cands:
             return cur
-        r = evaluate(cands, want_model=False)
+        r = evaluate(cands, want_model=False, chunk_main=1)
         nxt = next((c for c, f in zip(cands, r["fails"]) if f), None)
         if nxt is None:
             return cur
         cur = nxt
+
+
+def minimize(seq, still_fails):
+    """Greedy chunk removal (halves, quarters, ... single items) while still_fails(seq) holds."""
+    n = 2
+    while seq:
+        chunk = -(-len(seq) // n)
+        removed = False
+        for s in range(0, len(seq), chunk):
+            cand = seq[:s] + seq[s + chunk:]
+            if still_fails(cand):
+                seq, n, removed = cand, max(n - 1, 2), True
+                break
+        if not removed:
+            if chunk == 1:
+                break
+            n = min(n * 2, len(seq))
+    return seq
+
+
+def shrink_batch(pre, target):
+    """The target history fails only after other histories ran in the same process (process-global
+    state): drops whole histories from the prefix, then steps of the remaining ones, while the target
+    still fails."""
+    def fails(pfx):
+        return evaluate([h for h in pfx if h] + [target], want_model=False, chunk_fresh=1)["fails"][-1]
+    pre = minimize(list(pre), fails)
+    for j in range(len(pre)):
+        pre[j] = minimize(list(pre[j]), lambda hj: fails(pre[:j] + [hj] + pre[j + 1:]))
+    return [h for h in pre if h]
 
 
 def main():
@@ -263,7 +295,10 @@ def main():
         chk.finish()
     if chk.replay:
         rp = json.load(open(chk.replay))
-        hists = [[tuple(s) for s in rp["replay"]["history"]]]
+        if "batch" in rp["replay"]:
+            hists = [[tuple(s) for s in h] for h in rp["replay"]["batch"]]
+        else:
+            hists = [[tuple(s) for s in rp["replay"]["history"]]]
         n_rand, alpha, maxlen = 0, [], 0
     else:
         rnd, exh, alpha, maxlen = gen(chk)
@@ -284,7 +319,7 @@ def main():
         old = run_model("C15", "c15-old", cases)
         old_match = all(r["impl"][rel][i] == old[i] for i, rel in mism)
     # oracle C: concurrency exploration
-    n_mt = 0 if chk.replay else (1500 if chk.thorough else 150)
+    n_mt = 0 if chk.replay else (4000 if chk.thorough else 150)
     mt_idx = list(range(0, n_rand, max(1, n_rand // max(1, n_mt))))[:n_mt] if n_mt else ([0] if chk.replay else [])
     mt_cases = [cases[i] for i in mt_idx]
     mt_bad = []
@@ -318,6 +353,11 @@ def main():
                     held = True
             if line[10] == 1 and line[11:19] != line[2:10]:
                 events["steps where clone and original render differently"] += 1
+            cont = r["contents"][i][k][0]
+            if s[0] in (8, 15) and k > 0 and cont[s[1] % 4] >= 0 and r["contents"][i][k - 1][0][s[1] % 4] < 0:
+                events["renders that obtained a source from the loader and pinned it"] += 1
+            if s[0] == 7 and cont[4] >= 0 and k > 0 and r["contents"][i][k - 1][0][5] != s[1] and any(x >= 0 for x in cont[0:4]):
+                events["clock changes while a loader is set and templates are held"] += 1
         if held:
             events["histories with a failing add onto a name that currently renders"] += 1
         if len(vecs) >= 3 and failed:
@@ -346,14 +386,30 @@ def main():
     chk.cov["failing_histories"] = len(failing)
     seen = set()
     for i, f in sorted(failing, key=lambda t: len(hists[t[0]]))[:6]:
-        small = shrink(hists[i])
-        if tuple(small) in seen:
-            continue
-        seen.add(tuple(small))
-        f2 = evaluate([small], want_model=False)["fails"][0] or f
-        chk.violation("environment behaviour depends on its history", {
-            "history": [list(s) for s in small], "describe": [describe_step(s) for s in small], "failure": f2,
-            "shrunk_from_steps": len(hists[i]), "how": "./check C15 --replay <this file>"})
+        alone = evaluate([hists[i]], want_model=False, chunk_main=1, chunk_fresh=1)["fails"][0]
+        if alone:
+            small = shrink(hists[i])
+            f2 = evaluate([small], want_model=False, chunk_main=1, chunk_fresh=1)["fails"][0]
+            if not f2:
+                small, f2 = hists[i], alone
+            if tuple(small) in seen:
+                continue
+            seen.add(tuple(small))
+            chk.violation("environment behaviour depends on its history", {
+                "history": [list(s) for s in small], "describe": [describe_step(s) for s in small], "failure": f2,
+                "shrunk_from_steps": len(hists[i]), "how": "./check C15 --replay <this file>"})
+        else:
+            pre = shrink_batch(hists[:i], hists[i])
+            key = ("batch", len(pre))
+            if key in seen:
+                continue
+            seen.add(key)
+            f2 = evaluate(pre + [hists[i]], want_model=False, chunk_fresh=1)["fails"][-1] or f
+            chk.violation("an environment's behaviour depends on OTHER environments created earlier in the same process (process-global state)", {
+                "batch": [[list(s) for s in h] for h in pre + [hists[i]]],
+                "describe": [[describe_step(s) for s in h] for h in pre + [hists[i]]], "failure_in_last_history": f2,
+                "note": "each history runs on its own new Environment, one after the other in one process; the last one fails only in this company",
+                "how": "./check C15 --replay <this file>"})
         if len(seen) >= 3:
             break
     for i, prof, groups, final in mt_bad[:2]:
